@@ -213,7 +213,8 @@ theorem area_nonneg (solve : V → Q4 ℝ) (e : Q4 ℝ) (plane : Row4 ℝ) (poly
 /-- non-vacuity: a triangle in the plane `z = 1/4` inside the unit tetrahedron, exact solver -/
 def exSolve (b : V3 Rat) : Q4 Rat := ⟨1 - b.x - b.y - b.z, b.x, b.y, b.z⟩
 example : (computeContactForce exSolve (⟨1, 0, 0, 0⟩ : Q4 Rat) ⟨⟨0, 0, 1⟩, 1/4⟩
-    [⟨0, 0, 1/4⟩, ⟨3/4, 0, 1/4⟩, ⟨0, 0, 1/4⟩] 1).map (fun r => (r.area, r.nTriangles)) = .ok (0, 1) := by
+    [⟨0, 0, 1/4⟩, ⟨3/4, 0, 1/4⟩, ⟨0, 3/4, 1/4⟩] 1).map (fun r => (r.area, r.totalForce, r.force, r.nTriangles)) =
+    .ok (9/32, 9/128, ⟨0, 0, 9/128⟩, 1) := by
   decide +kernel
 
 /-! ## no polygon -/
@@ -278,6 +279,10 @@ theorem halfplane_buffer_overflow_general (hps : List (HP ℝ)) (ho : ThroughOri
     (hc : PairwiseCrossing hps) (hbig : 3 * hps.length < (pairIdx hps.length).length) :
     intersectHalfplanes hps = .error .indexOOB :=
   concurrent_overflow hps ho hc hbig
+
+/-- non-vacuity of the general form: the eight half-planes above -/
+example : ThroughOrigin hps8 ∧ PairwiseCrossing hps8 ∧ 3 * hps8.length < (pairIdx hps8.length).length :=
+  ⟨throughOrigin_int dirs8, pairwiseCrossing_int dirs8 (by decide), by simp only [hps8, List.length_map]; decide⟩
 
 /-! ## recorded defects on the faithful model -/
 
